@@ -179,7 +179,33 @@ class Ctx:
                             self.trusted.append(f'axiom {n} (via {t})')
                     if alien:
                         self.fail('proof', 'assumptions', f'{t} depends on non-stdlib axioms {alien}')
+        if ok and self.tier == 'thorough' and os.environ.get('VERIF_NO_COQCHK') != '1':
+            for f in prop_files:
+                self.coqchk(f)
         return ok
+
+    def coqchk(self, prop_file: str, timeout: int = 1800):
+        """Independent re-check of the compiled property file and everything it depends on (thorough tier)."""
+        mod = 'AB.' + prop_file.replace('/', '.')
+        rc, out = sh(['coqchk', '-silent', '-o', '-Q', 'theories', 'AB', mod], cwd=COQ, timeout=timeout)
+        self.checker_cmds.append(f'coqchk -silent -o -Q theories AB {mod}')
+        m = re.search(r'\* Axioms:(.*?)\n\s*\n\* Constants/Inductives relying on type-in-type:(.*?)\n\s*\n'
+                      r'\* Constants/Inductives relying on unsafe \(co\)fixpoints:(.*?)\n\s*\n'
+                      r'\* Inductives whose positivity is assumed:(.*?)\n', out, re.S)
+        if rc != 0 or not m:
+            self.fail('proof', 'coqchk', f'coqchk failed on {mod}', {'log_tail': out[-1500:]})
+            return
+        axioms, tit, unsafe, pos = [x.strip() for x in m.groups()]
+        self.notes.append(f'coqchk {mod}: axioms={axioms} type-in-type={tit} unsafe-fixpoints={unsafe} assumed-positivity={pos}')
+        self.trusted.append(f'coqchk -o {mod}: axioms {axioms}')
+        for name, val in (('type-in-type', tit), ('unsafe (co)fixpoints', unsafe), ('assumed positivity', pos)):
+            if val != '<none>':
+                self.fail('proof', 'coqchk', f'{mod} relies on {name}: {val}')
+        if axioms != '<none>':
+            names = [a.strip() for a in axioms.split('\n') if a.strip()]
+            alien = [n for n in names if n.split('.')[-1] not in STDLIB_AXIOMS and n not in STDLIB_AXIOMS]
+            if alien:
+                self.fail('proof', 'coqchk', f'{mod}: coqchk lists non-stdlib axioms {alien}')
 
     def run_coq_cases(self, name: str, preamble: str, case_type: str, check_fn: str,
                       cases: Sequence[str], chunk: int = 200, timeout: int = 600) -> list[int]:
@@ -449,7 +475,12 @@ def finish(ctx: Ctx, level: str = 'proof') -> int:
         'obligations': obligations,
         'discharged': discharged,
         'checker_cmd': ' && '.join(ctx.checker_cmds) or 'none',
-        'trusted_base': ['Coq 8.16.1 kernel + VM (vm_compute; no native_compute)'] + ctx.trusted,
+        'trusted_base': ['Coq 8.16.1 kernel + VM (vm_compute; no native_compute, no -type-in-type, no guard/positivity/universe switches)',
+                         'axioms: none declared; every property theorem audited by Print Assumptions on this run (see theorems[].assumptions)',
+                         'no extraction is used (no Extract Constant / Extract Inductive): the model is evaluated inside Coq',
+                         'correspondence harness (Python, harness/*.py): drives the real implementation in-process, renders its observations as Coq terms, coqc evaluates check_case with vm_compute',
+                         'translator translate/gen.py (Python ast, fail-closed) where Generated.v is used',
+                         'modelled, not verified: see assumptions'] + ctx.trusted,
         'theorems': ctx.obligations,
         'evaluations': ctx.counters.get('evaluations', 0),
         'distinct_nontrivial': len(ctx.distinct),
